@@ -236,7 +236,13 @@ func (db *DB) collectGarbage() (collectedCount uint64, done bool, err error) {
 		return 0, false, err
 	}
 
+	// removedCount is what leaves the gc index: the counts recorded for the
+	// removed files (re-read under the lock)
+	removedCount := uint64(0)
 	for _, item := range recycledItems {
+		if cur, err := db.gcIndex.Get(item); err == nil {
+			removedCount += cur.GCounter
+		}
 		// delete from retrieve, gc
 		err = db.retrievalDataIndex.DeleteInBatch(batch, item)
 		if err != nil {
@@ -258,11 +264,12 @@ func (db *DB) collectGarbage() (collectedCount uint64, done bool, err error) {
 	if len(recycledItems) == 0 {
 		// force gc clean
 		currentCollectedCount = gcSize
+		removedCount = gcSize
 	}
 
 	currentSize := uint64(0)
-	if currentCollectedCount <= gcSize {
-		currentSize = gcSize - currentCollectedCount
+	if removedCount <= gcSize {
+		currentSize = gcSize - removedCount
 	}
 
 	if currentSize > target {
